@@ -383,7 +383,9 @@ Qed.
 (** ** The correct lookup *)
 Lemma index_in_Some ordered p i :
   index_in ordered p = Some i ->
-  exists e, (first_user_token <= i)%N /            nth_error ordered (N.to_nat (i - first_user_token)) = Some e /\ p e = true /            (i < first_user_token + N.of_nat (length ordered))%N.
+  exists e, (first_user_token <= i)%N /\
+            nth_error ordered (N.to_nat (i - first_user_token)) = Some e /\ p e = true /\
+            (i < first_user_token + N.of_nat (length ordered))%N.
 Proof.
   unfold index_in. destruct (position p ordered) as [n|] eqn:E; [|discriminate].
   cbn [option_map]. intros H. inversion H; subst i.
@@ -395,7 +397,8 @@ Qed.
 
 (** Every occurrence of the grammar has an index, and it is in range. *)
 Theorem index_of_total occs o : In o occs ->
-  exists i, index_of occs o = Some i /            (first_user_token <= i < first_user_token + N.of_nat (length (ordered_terminals occs)))%N.
+  exists i, index_of occs o = Some i /\
+            (first_user_token <= i < first_user_token + N.of_nat (length (ordered_terminals occs)))%N.
 Proof.
   intros Hin. destruct (ordered_terminals_complete occs o Hin) as (e & He & Hs).
   destruct (position_exists (tif_pred o) _ e He) as (n & Hn & Hlt); [apply tif_pred_iff; exact Hs|].
@@ -404,7 +407,9 @@ Qed.
 
 (** The index denotes a table entry that is the same terminal. *)
 Theorem index_agree occs o : In o occs ->
-  exists i o', index_of occs o = Some i /               nth_error (ordered_terminals occs) (N.to_nat (i - first_user_token)) = Some o' /               same_terminal o o' = true.
+  exists i o', index_of occs o = Some i /\
+               nth_error (ordered_terminals occs) (N.to_nat (i - first_user_token)) = Some o' /\
+               same_terminal o o' = true.
 Proof.
   intros Hin. destruct (index_of_total occs o Hin) as (i & Hi & _).
   destruct (index_in_Some _ _ _ Hi) as (e & _ & He & Hp & _).
@@ -438,11 +443,11 @@ Proof.
   - exact (same_terminal_trans _ _ _ Hs H).
 Qed.
 
-(** ... and occurrences of the grammar that are different terminals get different indices. *)
-Theorem index_of_inj occs o1 o2 i : In o1 occs ->
+(** ... and different terminals get different indices. *)
+Theorem index_of_inj occs o1 o2 i :
   index_of occs o1 = Some i -> index_of occs o2 = Some i -> same_terminal o1 o2 = true.
 Proof.
-  intros _ H1 H2.
+  intros H1 H2.
   destruct (index_in_Some _ _ _ H1) as (e1 & _ & He1 & Hp1 & _).
   destruct (index_in_Some _ _ _ H2) as (e2 & _ & He2 & Hp2 & _).
   rewrite He1 in He2. inversion He2; subst e2. apply tif_pred_iff in Hp1, Hp2.
@@ -469,7 +474,9 @@ Proof. vm_compute. reflexivity. Qed.
     terminal ["a.c"], a DIFFERENT terminal. *)
 Theorem index_of_pm_refuted :
   exists occs o i e,
-    In o occs /\ index_of_pm occs o = Some i /    nth_error (ordered_terminals occs) (N.to_nat (i - first_user_token)) = Some e /    same_terminal o e = false /\ index_of occs o <> Some i.
+    In o occs /\ index_of_pm occs o = Some i /\
+    nth_error (ordered_terminals occs) (N.to_nat (i - first_user_token)) = Some e /\
+    same_terminal o e = false /\ index_of occs o <> Some i.
 Proof.
   exists d8_occs, d8_raw, 5%N, d8_legacy. vm_compute.
   repeat split; try reflexivity; [right; right; left; reflexivity|discriminate].
@@ -501,7 +508,8 @@ Qed.
 (** Also: the HEAD lookup never fails on an occurrence of the grammar and always stays in range -
     the defect is a silent confusion, not an error. *)
 Theorem index_of_pm_total occs o : In o occs ->
-  exists i, index_of_pm occs o = Some i /            (first_user_token <= i < first_user_token + N.of_nat (length (ordered_terminals occs)))%N.
+  exists i, index_of_pm occs o = Some i /\
+            (first_user_token <= i < first_user_token + N.of_nat (length (ordered_terminals occs)))%N.
 Proof.
   intros Hin. destruct (ordered_terminals_complete occs o Hin) as (e & He & Hs).
   destruct (position_exists (pm_pred o) _ e He) as (n & Hn & Hlt).
@@ -532,7 +540,8 @@ Section GrammarTypeLookup.
   (** ["a" ?= "b"] and ["a"]: two terminals (two token numbers, two names); the member name of an
       occurrence of the second is derived from the name of the first. *)
   Theorem index_of_gt_refuted :
-    exists occs o n e, In o occs /\ index_of_gt occs o = Some n /      nth_error (ordered_terminals occs) n = Some e /\ same_terminal o e = false.
+    exists occs o n e, In o occs /\ index_of_gt occs o = Some n /\
+      nth_error (ordered_terminals occs) n = Some e /\ same_terminal o e = false.
   Proof.
     set (o1 := (chars [97], K_Legacy, Some (true, chars [98], K_Legacy)) : occurrence).
     set (o2 := (chars [97], K_Legacy, None) : occurrence).
@@ -548,7 +557,9 @@ End GrammarTypeLookup.
 Theorem terminal_agreement_check_spec ordered claims :
   terminal_agreement_check ordered claims = true <->
   forall o i, In (o, i) claims ->
-    (first_user_token <= i)%N /    exists e, nth_error ordered (N.to_nat (i - first_user_token)) = Some e /              same_terminal e o = true.
+    (first_user_token <= i)%N /\
+    exists e, nth_error ordered (N.to_nat (i - first_user_token)) = Some e /\
+              same_terminal e o = true.
 Proof.
   unfold terminal_agreement_check. rewrite forallb_forall. split.
   - intros H o i Hin. specialize (H _ Hin). cbn [claim_ok] in H.
@@ -628,7 +639,8 @@ Proof. vm_compute. reflexivity. Qed.
 Example ex_in : In d8_raw d8_occs.
 Proof. right; right; left; reflexivity. Qed.
 Example ex_unique_hyp :
-  nth_error (ordered_terminals d8_occs) (N.to_nat (7 - first_user_token)) = Some d8_raw /  same_terminal d8_raw d8_raw = true.
+  nth_error (ordered_terminals d8_occs) (N.to_nat (7 - first_user_token)) = Some d8_raw /\
+  same_terminal d8_raw d8_raw = true.
 Proof. vm_compute. split; reflexivity. Qed.
 
 Print Assumptions ordered_terminals_nodup.
